@@ -627,7 +627,7 @@ func c06Run(r *vkit.Run) {
 		}
 	}
 	// pattern: lines constructed from capture values free of the next delimiter
-	vals := []string{"v", "", "two words", "é", "5", "a-b", "x -y", "- ", "a > b"}
+	vals := []string{"v", "", "two words", "é", "5", "a-b", "x -y", "- ", "a > b", "x\n", "y\r\n"}
 	for _, v1 := range vals {
 		for _, v2 := range vals {
 			for _, pre := range []bool{false, true} {
@@ -668,6 +668,13 @@ func c06Run(r *vkit.Run) {
 		}
 	}
 	visit(c06Input{Line: "not json", Stage: "unpack", Kind: "prefix", Parser: "unpack"})
+	// the empty key, and paths that address a position of the other kind (an index into an object, a key into an array)
+	for _, c := range [][2]string{{`{"a":{"":"v"}}`, `json x="a[0]"`}, {`{"a":["v"]}`, `json x="a[\"\"]"`}, {`{"a":{"":"v"}}`, `json x="a[\"\"]"`}, {`{"":"v","a":"w"}`, `json x="[\"\"]"`},
+		{`{"a":{"0":"v"}}`, `json x="a[0]"`}, {`{"a":["v"]}`, `json x="a[\"0\"]"`}, {`{"a":{"":{"":"deep"}}}`, `json x="a[0][0]"`}, {`[{"":"v"}]`, `json x="[0][0]"`}} {
+		for _, pre := range []bool{false, true} {
+			visit(c06Input{Line: c[0], Pre: pre, Stage: c[1], Kind: "wellformed", Parser: "json"})
+		}
+	}
 	// packed keys that are no label names (no _entry: the line stays what it is either way)
 	for _, d := range []string{`{"café":"au lait","k":"v"}`, `{"k":"v","x y":"z"}`, `{"0a":"z"}`, `{"é":"z","a":"new"}`, `{"a-b":"z"}`, `{"":"z"}`, `{"世":"z"}`} {
 		for _, pre := range []bool{false, true} {
